@@ -12,6 +12,10 @@ def run(rep, tier):
 
     rep.encoded(GraphQLField.to_ast, GraphQLField._collect_all_variables, GraphQLField._format_variable_name, GraphQLField.get_formatted_variables, GraphQLField._build_selections,
                 ArgumentGenerator.generate_arguments, CustomFieldsGenerator.generate)
+    import os
+
+    env = {"VERIF_C14_QUICK": "1" if tier == "quick" else "0"}
+    os.environ.update(env)
     from harness import C14_builder as H
 
     parts = xh.write_module("hC14_parts", H.parts_source())
@@ -19,14 +23,14 @@ def run(rep, tier):
 
     nparts = xh.write_module("hC14_names", HN.parts_source())
     targets = [f"{parts}.check_builder_s{i}" for i in range(H.NSH)] + [f"{MOD}.twin_two_fields_same_arg"] + [f"{nparts}.check_names_{i}" for i in range(16)]
-    res = xh.run_targets(targets, timeout=900 if tier == "quick" else 3000)
+    res = xh.run_targets(targets, timeout=900 if tier == "quick" else 3000, env_extra=env)
     xh.fold(rep, parts, [r for r in res if r.target.startswith(parts)])
     xh.fold(rep, MOD, [r for r in res if r.target.startswith(MOD)])
     xh.fold(rep, nparts, [r for r in res if r.target.startswith(nparts)])
     rep.coverage.update({
         "evaluations": len(res), "distinct_nontrivial": len(res) - 1, "exhaustive": all(r.status in ("confirmed", "counterexample") for r in res),
         "rule": f"builder expression = 1 or 2 top-level fields out of {H.NSH} shapes (plain, scalar args, list args, sub-field with args, camelCase sub-field, depth-2 args, union inline fragments, aliases, input-object arg, None arg, interface inline fragment) x {len(H.PREFIXES)} history prefixes of previously built operations x sync/async; every scenario in a fresh interpreter; oracle: graphql-core validate against the schema, every set argument bound to exactly one declared variable of the argument's exact type and the caller's value, None omitted, document equal to the one built without history",
-        "bounds": {"shapes": H.NSH, "top_level_fields": "<= 2", "history": "<= 2 previous operations"},
+        "bounds": {"shapes": H.NSH, "top_level_fields": "<= 2", "second_field_shapes": len(H.SECOND), "history": "<= 2 previous operations"},
         "results": [{"target": r.target.rsplit('.', 1)[-1], "status": r.status, "wall_s": round(r.wall, 1)} for r in res],
     })
     rep.sample({"expression": H.SHAPES[6][1], "expected_variables": {"after_0": "String", "limit_0": "Int!"}})
